@@ -245,8 +245,23 @@ def run(c, facts, tier):
     tb = _A.single_body(b.fn_ir(tokfn))
     talts = [x for x in (_A.flat_alts(tb) if tb is not None else [])]
     last = _A.unwrap(talts[-1]) if talts else None
-    while last is not None and last["t"] in ("ctx", "cut", "map", "value"):
-        last = _A.unwrap(last["p"])
+    for _ in range(12):
+        if last is None:
+            break
+        if last["t"] in ("ctx", "cut", "map", "value"):
+            last = _A.unwrap(last["p"])
+        elif last["t"] == "alt":
+            last = _A.unwrap(_A.flat_alts(last)[-1])
+        elif last["t"] == "seq" and last["items"] and all(_A.unwrap(i_["p"])["t"] in ("peek", "eof", "notp") or (_A.unwrap(i_["p"])["t"] == "alt" and all(_A.unwrap(x_)["t"] in ("peek", "eof", "notp") for x_ in _A.flat_alts(_A.unwrap(i_["p"])))) for i_ in last["items"][:-1]):
+            # look-ahead guards in front consume nothing: what follows them still starts at the start of the word
+            last = _A.unwrap(last["items"][-1]["p"])
+        elif last["t"] == "ref" and not last.get("extra"):
+            sb_ = _A.single_body(g.deref(last))
+            if sb_ is None:
+                break
+            last = _A.unwrap(sb_)
+        else:
+            break
     last_ok = last is not None and last["t"] == "fail"
     c.ob("C18.position", tokfn, "the unknown-word fallback is the last alternative of the token parser", last_ok, "last of %d alternatives of %s: %s — alt() surfaces the error of its last alternative; only one that fails at the start of the word leaves the whole word to be quoted" % (len(talts), tokfn, peg.show(talts[-1])[:60] if talts else None), witness="nopex  → quoted as `x`" if not last_ok else None)
     # C18.position: a hard error inside an argument leaves the input at the start of the offending word
